@@ -20,12 +20,18 @@ struct OModel {
   }
 };
 
-struct ObsWorld {
-  std::unique_ptr<Obs> o;
+// one observer of object types <N,E> with its reference maps
+template <class N, class E> struct ObsWorldT {
+  typedef bpp::AssociationGlobalGraphObserver<N, E> ObsT;
+  typedef std::shared_ptr<N> NPtr;
+  typedef std::shared_ptr<E> EPtr;
+  std::unique_ptr<ObsT> o;
   OModel m;
-  std::map<int, NP> nObj;  // every node object this observer has ever been given (live and dead)
-  std::map<int, EP> eObj;
+  std::map<int, NPtr> nObj;  // every node object this observer has ever been given (live and dead)
+  std::map<int, EPtr> eObj;
 };
+typedef ObsWorldT<NObj, EObj> ObsWorld;     // the observers the histories operate on
+typedef ObsWorldT<NObj2, EObj2> ObsWorld2;  // observer of other object types: target / source of the CONVERTING copy constructor
 
 template <class It, class P> std::vector<P> drainObj(std::unique_ptr<It> it, P*) {
   std::vector<P> a, b;
@@ -36,10 +42,11 @@ template <class It, class P> std::vector<P> drainObj(std::unique_ptr<It> it, P*)
   return a;
 }
 
-inline std::string tagsN(const std::vector<NP>& v) { std::ostringstream o; o << "["; for (const auto& p : v) o << (p ? "n" + std::to_string(p->tag) : std::string("null")) << " "; o << "]"; return o.str(); }
-inline std::string tagsE(const std::vector<EP>& v) { std::ostringstream o; o << "["; for (const auto& p : v) o << (p ? "e" + std::to_string(p->tag) : std::string("null")) << " "; o << "]"; return o.str(); }
+template <class P> std::string tagsN(const std::vector<P>& v) { std::ostringstream o; o << "["; for (const auto& p : v) o << (p ? "n" + std::to_string(p->tag) : std::string("null")) << " "; o << "]"; return o.str(); }
+template <class P> std::string tagsE(const std::vector<P>& v) { std::ostringstream o; o << "["; for (const auto& p : v) o << (p ? "e" + std::to_string(p->tag) : std::string("null")) << " "; o << "]"; return o.str(); }
 
-inline void checkObs(vf::Ctx& c, ObsWorld& W, const GModel& gm, const std::string& w0, unsigned rot = 0) {
+template <class OW> void checkObs(vf::Ctx& c, OW& W, const GModel& gm, const std::string& w0, unsigned rot = 0) {
+  typedef typename OW::ObsT Obs; typedef typename OW::NPtr NP; typedef typename OW::EPtr EP;
   Obs& o = *W.o; const Obs& co = o; const OModel& m = W.m;
   const std::string w = w0 + " [observer " + m.str() + " on " + gm.str() + "]";
   NP* const nk = nullptr; EP* const ek = nullptr;
@@ -68,7 +75,7 @@ inline void checkObs(vf::Ctx& c, ObsWorld& W, const GModel& gm, const std::strin
     if (hi) {
       Id ix = m.nIdx.at(tag);
       CHECK(o.getNodeIndex(p) == ix, w << ": getNodeIndex(n" << tag << ")=" << o.getNodeIndex(p));
-      CHECK(o.hasNode(static_cast<Obs::NodeIndex>(ix)) && o.getNode(ix) == p, w << ": index " << ix << " does not lead back to n" << tag);
+      CHECK(o.hasNode(static_cast<typename Obs::NodeIndex>(ix)) && o.getNode(ix) == p, w << ": index " << ix << " does not lead back to n" << tag);
     } else if (!thin(rot, static_cast<unsigned>(tag), 2, 3)) {
       CHECK(raises([&] { o.getNodeIndex(p); }), w << ": getNodeIndex of un-indexed object n" << tag << " did not raise");
     }
@@ -94,7 +101,7 @@ inline void checkObs(vf::Ctx& c, ObsWorld& W, const GModel& gm, const std::strin
     if (hi) {
       Id ix = m.eIdx.at(tag);
       CHECK(o.getEdgeIndex(q) == ix, w << ": getEdgeIndex(e" << tag << ")=" << o.getEdgeIndex(q));
-      CHECK(o.hasEdge(static_cast<Obs::EdgeIndex>(ix)) && o.getEdge(ix) == q, w << ": index " << ix << " does not lead back to e" << tag);
+      CHECK(o.hasEdge(static_cast<typename Obs::EdgeIndex>(ix)) && o.getEdge(ix) == q, w << ": index " << ix << " does not lead back to e" << tag);
     } else if (!thin(rot, static_cast<unsigned>(tag), 4, 3)) {
       CHECK(raises([&] { o.getEdgeIndex(q); }), w << ": getEdgeIndex of un-indexed object e" << tag << " did not raise");
     }
@@ -106,8 +113,8 @@ inline void checkObs(vf::Ctx& c, ObsWorld& W, const GModel& gm, const std::strin
   for (Id x : gm.everNode) if (!gm.nodes.count(x)) CHECK(o.getNodeFromGraphid(x) == nullptr, w << ": getNodeFromGraphid(" << x << ") is not null for a deleted node");
   Id maxI = 0; for (const auto& kv : m.nIdx) maxI = std::max(maxI, kv.second); for (const auto& kv : m.eIdx) maxI = std::max(maxI, kv.second);
   for (Id i = 0; i <= maxI + 2; ++i) {
-    CHECK(o.hasNode(static_cast<Obs::NodeIndex>(i)) == m.nodeIdxUsed(i), w << ": hasNode(index " << i << ")=" << o.hasNode(static_cast<Obs::NodeIndex>(i)));
-    CHECK(o.hasEdge(static_cast<Obs::EdgeIndex>(i)) == m.edgeIdxUsed(i), w << ": hasEdge(index " << i << ")=" << o.hasEdge(static_cast<Obs::EdgeIndex>(i)));
+    CHECK(o.hasNode(static_cast<typename Obs::NodeIndex>(i)) == m.nodeIdxUsed(i), w << ": hasNode(index " << i << ")=" << o.hasNode(static_cast<typename Obs::NodeIndex>(i)));
+    CHECK(o.hasEdge(static_cast<typename Obs::EdgeIndex>(i)) == m.edgeIdxUsed(i), w << ": hasEdge(index " << i << ")=" << o.hasEdge(static_cast<typename Obs::EdgeIndex>(i)));
   }
 
   // ---- whole-graph lists and counts
@@ -121,8 +128,8 @@ inline void checkObs(vf::Ctx& c, ObsWorld& W, const GModel& gm, const std::strin
   CHECK(o.getNumberOfEdges() == liveE.size(), w << ": getNumberOfEdges()=" << o.getNumberOfEdges() << " but getAllEdges() lists " << ae.size());
   CHECK(MS(drainObj(o.allNodesIterator(), nk)) == liveN && MS(drainObj(co.allNodesIterator(), nk)) == liveN, w << ": allNodesIterator differs from getAllNodes");
   CHECK(MS(drainObj(o.allEdgesIterator(), ek)) == liveE && MS(drainObj(co.allEdgesIterator(), ek)) == liveE, w << ": allEdgesIterator differs from getAllEdges");
-  if (m.nIdx.size() == m.nId.size()) { std::multiset<Id> wi; for (const auto& kv : m.nIdx) wi.insert(kv.second); std::vector<Obs::NodeIndex> gi = o.getAllNodesIndexes(); CHECK(std::multiset<Id>(gi.begin(), gi.end()) == wi, w << ": getAllNodesIndexes()=" << show(gi)); }
-  if (m.eIdx.size() == m.eId.size()) { std::multiset<Id> wi; for (const auto& kv : m.eIdx) wi.insert(kv.second); std::vector<Obs::EdgeIndex> gi = o.getAllEdgesIndexes(); CHECK(std::multiset<Id>(gi.begin(), gi.end()) == wi, w << ": getAllEdgesIndexes()=" << show(gi)); }
+  if (m.nIdx.size() == m.nId.size()) { std::multiset<Id> wi; for (const auto& kv : m.nIdx) wi.insert(kv.second); std::vector<typename Obs::NodeIndex> gi = o.getAllNodesIndexes(); CHECK(std::multiset<Id>(gi.begin(), gi.end()) == wi, w << ": getAllNodesIndexes()=" << show(gi)); }
+  if (m.eIdx.size() == m.eId.size()) { std::multiset<Id> wi; for (const auto& kv : m.eIdx) wi.insert(kv.second); std::vector<typename Obs::EdgeIndex> gi = o.getAllEdgesIndexes(); CHECK(std::multiset<Id>(gi.begin(), gi.end()) == wi, w << ": getAllEdgesIndexes()=" << show(gi)); }
   {
     std::set<Id> lv, innerOut, innerDeg;
     for (Id n : gm.nodes) { if (gm.leaf(n)) lv.insert(n); if (!gm.outN(n).empty()) innerOut.insert(n); if (gm.nbr(n).size() > 1) innerDeg.insert(n); }
@@ -136,7 +143,7 @@ inline void checkObs(vf::Ctx& c, ObsWorld& W, const GModel& gm, const std::strin
       CHECK(MS(gl) == nodesOf(lv), w << ": getAllLeaves()=" << tagsN(gl) << " expected the objects of nodes " << show(lv));
       bool allIdx = true; std::multiset<Id> wi;
       for (Id n : lv) { int t; if (m.tagOfNode(n, t)) { if (m.nIdx.count(t)) wi.insert(m.nIdx.at(t)); else allIdx = false; } }
-      if (allIdx) { std::vector<Obs::NodeIndex> gi = o.getAllLeavesIndexes(); CHECK(std::multiset<Id>(gi.begin(), gi.end()) == wi, w << ": getAllLeavesIndexes()=" << show(gi)); }
+      if (allIdx) { std::vector<typename Obs::NodeIndex> gi = o.getAllLeavesIndexes(); CHECK(std::multiset<Id>(gi.begin(), gi.end()) == wi, w << ": getAllLeavesIndexes()=" << show(gi)); }
     }
     CHECK(o.getNumberOfLeaves() == nodesOf(lv).size(), w << ": getNumberOfLeaves()=" << o.getNumberOfLeaves() << " expected " << nodesOf(lv).size());
     if (!(beyondI && atKnown)) {
@@ -182,22 +189,22 @@ inline void checkObs(vf::Ctx& c, ObsWorld& W, const GModel& gm, const std::strin
     CHECK(o.isLeaf(p) == gm.leaf(n), wn << " isLeaf=" << o.isLeaf(p));
     // by index, when the node and all the objects concerned carry an index
     if (m.nIdx.count(tag)) {
-      Obs::NodeIndex ix = m.nIdx.at(tag);
+      typename Obs::NodeIndex ix = m.nIdx.at(tag);
       CHECK(o.isLeaf(ix) == gm.leaf(n), wn << " isLeaf(index)=" << o.isLeaf(ix));
       auto idxN = [&](const std::set<Id>& ids, std::set<Id>& out) { for (Id i : ids) { int t; if (m.tagOfNode(i, t)) { if (!m.nIdx.count(t)) return false; out.insert(m.nIdx.at(t)); } } return true; };
       auto idxE = [&](const std::set<Id>& ids, std::set<Id>& out) { for (Id i : ids) { int t; if (m.tagOfEdge(i, t)) { if (!m.eIdx.count(t)) return false; out.insert(m.eIdx.at(t)); } } return true; };
       std::set<Id> x;
-      if (!(offKnown && hitsN(on)) && idxN(on, x)) { std::vector<Obs::NodeIndex> v = o.getOutgoingNeighbors(ix); CHECK(std::set<Id>(v.begin(), v.end()) == x, wn << " getOutgoingNeighbors(index)=" << show(v) << " expected " << show(x)); }
+      if (!(offKnown && hitsN(on)) && idxN(on, x)) { std::vector<typename Obs::NodeIndex> v = o.getOutgoingNeighbors(ix); CHECK(std::set<Id>(v.begin(), v.end()) == x, wn << " getOutgoingNeighbors(index)=" << show(v) << " expected " << show(x)); }
       x.clear();
-      if (!(offKnown && hitsN(in)) && idxN(in, x)) { std::vector<Obs::NodeIndex> v = o.getIncomingNeighbors(ix); CHECK(std::set<Id>(v.begin(), v.end()) == x, wn << " getIncomingNeighbors(index)=" << show(v) << " expected " << show(x)); }
+      if (!(offKnown && hitsN(in)) && idxN(in, x)) { std::vector<typename Obs::NodeIndex> v = o.getIncomingNeighbors(ix); CHECK(std::set<Id>(v.begin(), v.end()) == x, wn << " getIncomingNeighbors(index)=" << show(v) << " expected " << show(x)); }
       x.clear();
-      if (!(offKnown && (hitsN(on) || hitsN(in))) && idxN(uni(on, in), x)) { std::vector<Obs::NodeIndex> v = o.getNeighbors(ix); CHECK(std::set<Id>(v.begin(), v.end()) == x, wn << " getNeighbors(index)=" << show(v) << " expected " << show(x)); }
+      if (!(offKnown && (hitsN(on) || hitsN(in))) && idxN(uni(on, in), x)) { std::vector<typename Obs::NodeIndex> v = o.getNeighbors(ix); CHECK(std::set<Id>(v.begin(), v.end()) == x, wn << " getNeighbors(index)=" << show(v) << " expected " << show(x)); }
       x.clear();
-      if (!(offKnown && hitsE(oe)) && idxE(oe, x)) { std::vector<Obs::EdgeIndex> v = o.getOutgoingEdges(ix); CHECK(std::set<Id>(v.begin(), v.end()) == x, wn << " getOutgoingEdges(index)=" << show(v) << " expected " << show(x)); }
+      if (!(offKnown && hitsE(oe)) && idxE(oe, x)) { std::vector<typename Obs::EdgeIndex> v = o.getOutgoingEdges(ix); CHECK(std::set<Id>(v.begin(), v.end()) == x, wn << " getOutgoingEdges(index)=" << show(v) << " expected " << show(x)); }
       x.clear();
-      if (!(offKnown && hitsE(ie)) && idxE(ie, x)) { std::vector<Obs::EdgeIndex> v = o.getIncomingEdges(ix); CHECK(std::set<Id>(v.begin(), v.end()) == x, wn << " getIncomingEdges(index)=" << show(v) << " expected " << show(x)); }
+      if (!(offKnown && hitsE(ie)) && idxE(ie, x)) { std::vector<typename Obs::EdgeIndex> v = o.getIncomingEdges(ix); CHECK(std::set<Id>(v.begin(), v.end()) == x, wn << " getIncomingEdges(index)=" << show(v) << " expected " << show(x)); }
       x.clear();
-      if (!(offKnown && (hitsE(oe) || hitsE(ie))) && idxE(uni(oe, ie), x)) { std::vector<Obs::EdgeIndex> v = o.getEdges(ix); CHECK(std::set<Id>(v.begin(), v.end()) == x, wn << " getEdges(index)=" << show(v) << " expected " << show(x)); }
+      if (!(offKnown && (hitsE(oe) || hitsE(ie))) && idxE(uni(oe, ie), x)) { std::vector<typename Obs::EdgeIndex> v = o.getEdges(ix); CHECK(std::set<Id>(v.begin(), v.end()) == x, wn << " getEdges(index)=" << show(v) << " expected " << show(x)); }
     }
     // linking edge of every ordered pair of node objects
     for (const auto& kv2 : m.nId) {
@@ -214,21 +221,24 @@ inline void checkObs(vf::Ctx& c, ObsWorld& W, const GModel& gm, const std::strin
   }
 }
 
-// a copy owns distinct objects with the same relations; returns the world of the copy (registered on the same graph)
-inline ObsWorld adoptCopy(vf::Ctx& c, std::unique_ptr<Obs> cp, const ObsWorld& src, const GModel& gm, const std::string& w) {
+// a copy owns distinct objects with the same relations; returns the world of the copy (registered on the same graph).
+// Source and copy may be observers of different object types (converting copy constructor): the copy's objects are
+// then the conversions of the source's objects (same tag and payload).
+template <class OWd, class OWs>
+OWd adoptCopy(vf::Ctx& c, std::unique_ptr<typename OWd::ObsT> cp, const OWs& src, const GModel& gm, const std::string& w) {
   (void)c; (void)gm;
-  ObsWorld W; W.o = std::move(cp); W.m = src.m;
+  OWd W; W.o = std::move(cp); W.m = src.m;
   for (const auto& kv : src.m.nId) {
-    NP p = W.o->getNodeFromGraphid(kv.second);
+    typename OWd::NPtr p = W.o->getNodeFromGraphid(kv.second);
     CHECK(p != nullptr, w << ": the copy has no object on node " << kv.second);
-    CHECK(p != src.nObj.at(kv.first), w << ": the copy shares the node object n" << kv.first << " with the original");
+    CHECK(static_cast<const void*>(p.get()) != static_cast<const void*>(src.nObj.at(kv.first).get()), w << ": the copy shares the node object n" << kv.first << " with the original");
     CHECK(p->tag == kv.first && p->payload == src.nObj.at(kv.first)->payload, w << ": the copy's object on node " << kv.second << " is not a copy of n" << kv.first);
     W.nObj[kv.first] = p;
   }
   for (const auto& kv : src.m.eId) {
-    EP q = W.o->getEdgeFromGraphid(kv.second);
+    typename OWd::EPtr q = W.o->getEdgeFromGraphid(kv.second);
     CHECK(q != nullptr, w << ": the copy has no object on edge " << kv.second);
-    CHECK(q != src.eObj.at(kv.first), w << ": the copy shares the edge object e" << kv.first << " with the original");
+    CHECK(static_cast<const void*>(q.get()) != static_cast<const void*>(src.eObj.at(kv.first).get()), w << ": the copy shares the edge object e" << kv.first << " with the original");
     CHECK(q->tag == kv.first && q->payload == src.eObj.at(kv.first)->payload, w << ": the copy's object on edge " << kv.second << " is not a copy of e" << kv.first);
     W.eObj[kv.first] = q;
   }
